@@ -127,6 +127,48 @@ PYEOF
   rm -f "$FUZZLOG"
 fi
 
+# ---- platform pass: the same monitor built for a 32-bit platform (GOARCH=386: int and uint are 32 bits
+# wide) runs this property's quick-size workload; arithmetic done in int instead of a fixed-width type
+# only shows there. Thorough tier: every property; quick tier: the two cheap ones where it matters most
+# (C08 numeric limits, C19 bit layout). Its verdict counts: a violation there is a violation.
+plat=0
+if [ "$TIER" = "thorough" ] || [ "$PROP" = "C08" ] || [ "$PROP" = "C19" ]; then plat=1; fi
+if [ $plat -eq 1 ] && [ $rc -eq 0 ] && [ "${VERIF_NO_PLATFORM:-0}" != "1" ]; then
+  PDIR="$(mktemp -d /tmp/verif386.XXXXXX)"
+  if (cd "$ROOT/harness" && GOARCH=386 go build "${MODFLAG[@]}" -o "$PDIR/mon386" ./cmd/mon) >/dev/null 2>&1; then
+    VERIF_TIER=quick VERIF_OUT="$PDIR/out" VERIF_PLATFORM_PASS=386 VERIF_MON="$PDIR/mon386" VERIF_MON_FAST="$PDIR/mon386" \
+      timeout -s KILL 1800 "$PDIR/mon386" "$PROP" > "$PDIR/log" 2>&1
+    prc=$?
+    pline="$(grep -E '^(HELD|VIOLATION|INCONCLUSIVE)' "$PDIR/log" | head -1)"
+    echo "platform 386: rc=$prc $pline" | cut -c1-220
+    if [ $prc -eq 1 ]; then
+      grep -E '^witness' "$PDIR/log" | head -3 | cut -c1-600
+      for f in "$PDIR"/out/replays/*.json; do [ -f "$f" ] && cp "$f" "$OUTDIR/replays/386-$(basename "$f")"; done
+      first="$(ls "$OUTDIR"/replays/386-"$PROP"-*.json 2>/dev/null | head -1)"
+      echo "VIOLATION property=$PROP replay=${first:-$OUTDIR/replays}"
+      rc=1
+    fi
+    python3 - "$OUTDIR/evidence/$PROP.json" "$PDIR/out/evidence/$PROP.json" "$prc" <<'PYEOF'
+import json,sys
+p,q,prc=sys.argv[1],sys.argv[2],int(sys.argv[3])
+try:
+    ev=json.load(open(p))
+    info={"how":"the same monitor built with GOARCH=386 (32-bit int/uint), quick-size workload, same seed","exit":prc}
+    try:
+        e2=json.load(open(q)); info["evaluations"]=e2["coverage"]["evaluations"]; info["violations"]=e2.get("violations",0)
+    except Exception: pass
+    ev["coverage"]["platform_386"]=info
+    if prc==1: ev["violations"]=ev.get("violations",0)+info.get("violations",1)
+    json.dump(ev,open(p,"w"),indent=1)
+except Exception as e:
+    print("could not add platform pass to evidence:",e)
+PYEOF
+  else
+    echo "platform 386: build failed (pass skipped)"
+  fi
+  rm -rf "$PDIR"
+fi
+
 # ---- thorough tier: reach evidence. A cover-instrumented build of the same monitor runs this
 # property's quick-size workload once (same generators, same seed); the statement coverage
 # of the property's anchored files goes into the evidence as coverage.anchor_coverage.
